@@ -3,8 +3,8 @@
                                  let multiplier = 10_f64.powf(precision as f64); fun(num * multiplier) / multiplier
      src/stdlib/round.rs, ceil.rs, floor.rs   (precision.try_integer()?; Float -> from_f64_or_zero(round_to_precision ..);
                                                Integer -> unchanged; anything else -> error)
-     src/stdlib/abs.rs        (Float -> from_f64_or_zero(f.abs()); Integer -> i.abs(), which PANICS at i64::MIN in a
-                               build with overflow checks; anything else -> error)
+     src/stdlib/abs.rs        (Float -> from_f64_or_zero(f.abs()); Integer -> i.wrapping_abs(): i64::MIN wraps to itself
+                               [since /repo b0e107f; before, i.abs() panicked there]; anything else -> error)
      src/stdlib/mod_func.rs   (value.try_rem(modulus), Model/Arith.v)
      src/stdlib/to_int.rs, to_float.rs, to_string.rs, parse_int.rs (Model/IntText.v), parse_float.rs
      src/compiler/conversion/mod.rs  Conversion::Integer (str::parse::<i64>), Conversion::Float (str::parse::<f64>, NaN rejected)
@@ -106,16 +106,15 @@ End Rounding.
 
 (* ---------- abs ---------- *)
 
+(* i64::wrapping_abs: the absolute value, wrapped into i64 (only i64::MIN is affected: it is returned unchanged) *)
+Definition wrapping_abs (i : Z) : Z := wrap64 (Z.abs i).
+
 Definition abs_fn (v : value) : res value :=
   match v with
   | VFloat f => ROk (VFloat (or_zero (SFabs f)))
-  | VInt i => if i =? i64_min then RPanic            (* i64::abs: "attempt to negate with overflow" *)
-              else ROk (VInt (Z.abs i))
+  | VInt i => ROk (VInt (wrapping_abs i))
   | _ => RErr
   end.
-
-(* what i64::wrapping_abs would return (the behaviour the property text asks for) *)
-Definition wrapping_abs (i : Z) : Z := wrap64 (Z.abs i).
 
 (* ---------- mod ---------- *)
 
